@@ -397,7 +397,21 @@ def cli_steps(tmp, tag, seed, full):
         ("calculate_scores", ["--data", o("train.h5"), "--thetas", o("thetas.h5"), "--distance-matrix", o("dist.h5"), "--scorer", "RandomScorer", "--output", o("scores.h5"), "--seed", seed], [o("scores.h5")]),
         ("select_next_plate", ["--data", o("train.h5"), "--scores", o("scores.h5"), "--policy", "KPerSamplePlatePolicy", "--policy-param", "k=1", "--output", o("selected"), "--seed", seed], [o("selected")]),
         ("evaluate_model", ["--screen", o("test.h5"), "--thetas", o("thetas.h5"), "--output", o("eval.h5"), "--seed", seed], [o("eval.h5")]),
+        # the plots are PDF files (creation time stamps): the numbers it reports are what is compared
+        ("analyze_model_evaluation", ["--model-evaluation", o("eval.h5"), "--screen", o("test.h5"), "--thetas", o("thetas.h5"), "--output-dir", o("analysis"), "--seed", seed], [os.path.join(o("analysis"), "summary_statistics.json")]),
     ]
+
+
+def _argv_for_second_run(argvA, outsA, tmp):
+    """the step's own outputs (files, or the directory its output files live in) move from A_ to B_; its inputs stay"""
+    a_, b_ = os.path.join(tmp, "A_"), os.path.join(tmp, "B_")
+    out = []
+    for a in argvA:
+        if isinstance(a, str) and (a in outsA or any(o_.startswith(a + os.sep) for o_ in outsA)):
+            out.append(a.replace(a_, b_))
+        else:
+            out.append(a)
+    return out
 
 
 def file_fp(path):
@@ -421,7 +435,7 @@ def cli_pairs(rec, tier, rng):
             for si, (name, argvA, outsA) in enumerate(stepsA):
                 mod = importlib.import_module("batchie.cli." + name)
                 outsB = [p.replace(os.path.join(tmp, "A_"), os.path.join(tmp, "B_")) for p in outsA]
-                argvB = [outsB[outsA.index(a)] if a in outsA else a for a in argvA]
+                argvB = _argv_for_second_run(argvA, outsA, tmp)
                 state = {"first": True}
 
                 def run(mod=mod, argvA=argvA, argvB=argvB, outsA=outsA, outsB=outsB, state=state):
@@ -446,7 +460,7 @@ def cli_subprocess_pairs(rec, rng, shard, only=None):
             if only is not None and name not in only:
                 continue
             outsB = [p.replace(os.path.join(tmp, "A_"), os.path.join(tmp, "B_")) for p in outsA]
-            argvB = [outsB[outsA.index(a)] if a in outsA else a for a in argvA]
+            argvB = _argv_for_second_run(argvA, outsA, tmp)
             fps = []
             ok = True
             hs_pair = ("1", "77") if shard % 2 == 0 else ("3", "1234")
